@@ -345,7 +345,12 @@ def run(repo: Repo, rep: Report, tier: str) -> None:
                 else:
                     rep.add("HARD-NEAREST", fi, construct, st_, why_, node=node)
             else:
-                rep.undecided("HARD-NEAREST", fi, construct, f"the metric does not depend on the received value ({tv.show()})", node=node)
+                # the polarity domain lost the dependence (an operation it reads as constant): the ranking is decided by evaluation
+                st_, why_ = metric_ranking_verdict(ci, fi, node, which)
+                if st_ == UNDECIDED:
+                    rep.undecided("HARD-NEAREST", fi, construct, f"the metric does not depend on the received value ({tv.show()}); {why_}", node=node)
+                else:
+                    rep.add("HARD-NEAREST", fi, construct, st_, why_, node=node)
         if not sites:
             # closed-form sign decisions (BPSK, OQPSK)
             amp = modulator_amplitude_polarity(repo, ci)
